@@ -17,11 +17,11 @@ CLAIMS = {
  'C03': ('quiescent-point assertion monitor (white-box snapshot under the cache\'s own locks vs RemainingCost/MaxCost), shadow accounting with fixed per-key costs, concurrent RemainingCost sampler; race-detector build',
          'Exploration: used == sum of accounted costs, RemainingCost() == MaxCost - used, accounted cost of every key == its fixed cost (+ internal overhead), RemainingCost() >= 0 at drained points and in a concurrent sampler in histories without cost-raising overwrites; cost sources explicit / Config.Cost / internal cost on and off, UpdateMaxCost raises.', '5/C03'),
  'C04': ('offline per-value life-cycle automaton over a recorded event log (issued -> accepted|refused -> (evict|reject)? -> exit) from free-running stress with delay injection; race-detector build',
-         'Exploration: every accepted value exits exactly once by the return of the next Clear/Close called after its Set returned, refused values reach no callback, OnEvict/OnReject at most once and followed by OnExit, no hit after exit; write-buffer sizes 1..32768, all capacities, TTLs, ShouldUpdate refusals, concurrent Clear.', '5/C04'),
+         'Exploration: every accepted value exits exactly once by the return of the next Clear/Close called after its Set returned, refused values reach no callback, OnEvict/OnReject at most once and followed by OnExit, no hit after exit; write-buffer sizes 1..32768, all capacities, TTLs, ShouldUpdate refusals, concurrent Clear; gated sequential episodes compare the exact callback multiset per operation; a directed job (hold Set/Del between the store update and OnExit, run Clear, release) reproduces known finding KF1 on every run, which is reported as KNOWN-FINDING.', '5/C04, 9.2'),
  'C05': ('reference-model monitor in lock-step with the single-stepped applier (gate hook): exhaustive enumeration of write prefixes x applier lags before Del, random gated sequences; callbacks compared per operation',
-         'Exploration with a completely enumerated sub-space: every prefix over {Set, SetWithTTL, apply-one, Get} of length <= 4 on a key, then Del, every {apply-one, Get} suffix of length <= 2, then Wait and Gets, for two write-buffer sizes; plus random gated sequences with more Dels. Get must miss after Del;Wait until the next Set, and the deleted value must be passed to OnExit exactly once.', '5/C05'),
+         'Exploration with a completely enumerated sub-space: every prefix over {Set, SetWithTTL, apply-one, Get} of length <= 4 on a key, then Del, every {apply-one, Get} suffix of length <= 2, then Wait and Gets, for two write-buffer sizes; plus random gated sequences with more Dels. Get must miss after Del;Wait until the next Set, and the deleted value must be passed to OnExit exactly once; plus free-running single-writer-per-key episodes (small buffers, delays) with the offline per-key rule over the merged log.', '5/C05'),
  'C06': ('reference-model monitor (map + explicit FIFO of pending writes) driven in lock-step with the applier, which is single-stepped through the vpApplierItem hook so that lag is an explicit integer; Wait early-return probe',
-         'Exploration: thousands of random single-client sequences of Set/SetWithTTL/Del/Get/GetTTL/IterValues/Wait/Clear with "apply n items" steps in between; every Get/GetTTL/IterValues result and the white-box map contents must equal the model; Wait must not return before the items buffered ahead of its marker are applied.', '5/C06'),
+         'Exploration: thousands of random single-client sequences of Set/SetWithTTL/Del/Get/GetTTL/IterValues/Wait/Clear with "apply n items" steps in between; every Get/GetTTL/IterValues result and the white-box map contents must equal the model; Wait must not return before the items buffered ahead of its marker are applied; a no-sweep mode adds millisecond TTLs; the directed sweep schedules of C14 are also run under C06 (an entry re-written without TTL / with a later TTL must stay retrievable).', '5/C06, 9.5'),
  'C07': ('interval checker with sound wall-time brackets over scripted per-key histories (expiration lies in [t0+ttl, t1+ttl] with t0/t1 read around SetWithTTL); applier held by the gate hook for born-expired inserts; observers Get, GetTTL, IterValues; many caches in parallel',
          'Exploration: an observation that started after the latest possible expiration must not yield the item, one that finished before the earliest possible expiration must yield it (ample capacity, control key), anything in between is counted as inconclusive band; GetTTL <= ttl, no expiry for ttl=0, negative ttl returns false / stores nothing / reaches no callback. Real time cannot be compressed: the number of bracketed observations is what the budget allows.', '5/C07'),
  'C08': ('Go race detector (halt_on_error=0, reports de-duplicated by outermost ristretto frame pair) + per-call recover + per-call watchdog with canary; the workload shares no monitor state between goroutines so no happens-before edges are added',
@@ -29,7 +29,7 @@ CLAIMS = {
  'C09': ('online decision monitor: the verifSampled hook reports (incoming estimate, sample, chosen minimum) under the policy mutex and the monitor recomputes every estimate, the minimum and the expected branch independently, then matches OnEvict order / OnReject / accounting; plus a black-box layer valid for any sampling scheme',
          'Exploration: thousands of decisions over resident populations 1..40, cost and frequency assignments (ties, zero, saturated), incoming classes {fits, fits exactly, exceeds by 1, needs k victims, larger than MaxCost, already resident}, each configuration repeated for different map iteration orders. The sample size is recorded, never asserted.', '5/C09'),
  'C10': ('differential reference-model monitor (map[uint64]uint64) over generated Set/DeleteBelow/IterateKV-rewrite/Reset histories, six page sizes, checkptr build',
-         'Exploration: after every operation the touched keys, and periodically every key ever used plus the IterateKV multiset, are compared with a reference map; thresholds are tied to existing values so that leaf maxima are hit; histories cross node splits, page recycling and growth of the 1 MiB buffer.', '5/C10'),
+         'Exploration: after every operation the touched keys, and periodically every key ever used plus the IterateKV multiset, are compared with a reference map; thresholds are tied to existing values so that leaf maxima are hit; histories cross node splits, page recycling and growth of the 1 MiB buffer; page sizes: the six boundary sizes plus sizes drawn from the whole range; in half of the short histories a fault-injection hook moves the backing buffer at every fresh page allocation (what Buffer.Grow does at capacity crossings), so a write through a stale node reference is lost immediately.', '5/C10, 9.5'),
  'C11': ('differential reference-model monitor ([]byte / [][]byte) over the four buffer kinds, sortedness + permutation oracle for the sorter, checkptr build',
          'Exploration: generated raw-mode and slice-mode sequences (sizes around capacity, growth, calloc->mmap switch, max size, slice counts around the 1024 chunking, five comparison functions); every operation is followed by a comparison of Bytes()/SliceOffsets/Slice/SliceIterate with the reference.', '5/C11'),
  'C12': ('address-interval disjointness + fill-pattern re-read + alignment/zero/copy assertions + sequential replay after Reset + per-call watchdog; Go race detector as second oracle (vwork.race), bulk sizes under checkptr (vwork.ptr)',
@@ -39,7 +39,7 @@ CLAIMS = {
  'C14': ('directed schedule forcing through sweep hook points (the sweep is held after the bucket grab / before a key\'s check / after its conditional removal while a client re-writes or deletes the key), late-application schedules (insert waits in the write buffer until its bucket lies behind the frontier), stress with delays at the sweep points; oracles: per-value life-cycle attribution, bounded-progress restatement of "eventually", index-reachability invariant on white-box snapshots',
          'Exploration: position x racing call x position of the key in its bucket (100 directed cases per round), about half of the late-application attempts reach the sweep-first ordering (observed, not forced: the applier\'s select is random), stress episodes attribute every sweep eviction to a write whose earliest possible expiration had passed. "Eventually removed" is decided as: removed, reported once and cost released once a sweep that started after the application has completed with a frontier beyond the entry\'s bucket and the frontier at application; plus: every stored TTL entry is indexed in a bucket the sweep will still visit.', '5/C14'),
  'C15': ('post-condition assertions after Clear/Close in gated sequential histories (model predicts exact callbacks), goroutine-profile monitor, bounded-return probes for calls on a closed cache',
-         'Exploration: histories that leave resident entries, buffered new items, buffered updates, buffered tombstones, pending Wait markers (blocked helper goroutines) and TTL entries at the moment of Clear/Close (the number of items applied before the applier stops is observed, not predicted); after Clear: empty snapshot, RemainingCost == MaxCost, metrics zero, waiters released, new writes served; after Close: Set false, Get miss, Del/Wait/Clear/Close return, no processItems goroutine left, every held or buffered value released exactly once.', '5/C15'),
+         'Exploration: histories that leave resident entries, buffered new items, buffered updates, buffered tombstones, pending Wait markers (blocked helper goroutines) and TTL entries at the moment of Clear/Close (the number of items applied before the applier stops is observed, not predicted); after Clear: empty snapshot, RemainingCost == MaxCost, metrics zero, waiters released, new writes served; after Close: Set false, Get miss, Del/Wait/Clear/Close return, no processItems goroutine left, every held or buffered value released exactly once; no-sweep episodes make expired-but-unswept entries resident at Clear/Close; free-running episodes (clients joined with the buffer undrained, blocked Wait helpers, delays at the three internal points of Clear) assert the same post-conditions and run the life-cycle automaton.', '5/C15'),
  'C16': ('C10 differential monitor carried across clean close + reopen of a persistent tree, Stats equality, recycled-page reuse assertion, checkptr build',
          'Exploration: Set/DeleteBelow histories on a file-backed tree, closed and reopened at random points, right after DeleteBelow recycled pages, at page-count boundaries of the mapped file, right after creation and at the end; contents, Stats (all but Allocated) and subsequent behaviour are compared with the reference.', '5/C16'),
  'C17': ('quiescent-point conservation checker: Metrics counters vs harness-side per-goroutine counters and the white-box snapshot; race-detector build',
@@ -47,7 +47,7 @@ CLAIMS = {
  'C18': ('reference-model monitor (exact per-counter model of the count-min rows, white-box via verif accessors) + exhaustive byte-level enumeration, checkptr build',
          'Exploration: every 4-bit counter of the real sketch is compared with an exact model after every operation over generated sequences and table sizes; the byte-level sub-space (256 values x nibble) is enumerated completely. Holds on the sequences observed; right level because the property is a pure-function contract over an unbounded input space.', '5/C18'),
  'C19': ('reference-set monitor with structured probe hashes and JSON round-trip differential, checkptr build',
-         'Exploration: generated Add/AddIfNotHas/Has/Clear/JSON sequences over parameter lists, each answer compared with a reference set; no false negative, AddIfNotHas contract, Clear, serialization equality on every probed hash.', '5/C19'),
+         'Exploration: generated Add/AddIfNotHas/Has/Clear/JSON sequences over parameter lists, each answer compared with a reference set; no false negative, AddIfNotHas contract, Clear, serialization equality on every probed hash; restored filters are cleared and histories continue on them.', '5/C19'),
  'C20': ('differential monitor vs simd.Naive with adversarial tails + guard-page sanitizer (PROT_NONE page after the slice, SetPanicOnFault)',
          'Exploration with a completely enumerated sub-space: every even length 0..518 x first-match position x k class x tail pattern, plus random contents; any read past len(xs) faults on the guard page and is recorded.', '5/C20'),
 }
